@@ -980,6 +980,35 @@ def drive_mpc(ck, rng, n):
                 ck.sample({"driver": "MPC.forward", **w})
 
 
+def stored_handles(ck, rng):
+    """`go_on = scheduler.continual` kept in a variable (as a loop condition handed to other code) answers for the scheduler it was
+    taken from, whatever other controllers exist or were touched afterwards."""
+    for rep in range(4):
+        o1, o2 = StubLM(1.0, 1.0, 0), StubLM(1.0, 1.0, 0)
+        steps1 = int(rng.integers(1, 4))
+        s1 = pp.optim.scheduler.StopOnPlateau(o1, steps=steps1, patience=50, decreasing=1e-3)
+        s2 = pp.optim.scheduler.StopOnPlateau(o2, steps=50, patience=50, decreasing=1e-3)
+        order = bool(rng.integers(2))
+        g1, g2 = (s1.continual, s2.continual) if order else tuple(reversed((s2.continual, s1.continual)))
+        r1, r2 = pp.utils.ReduceToBason(steps=steps1, patience=50), pp.utils.ReduceToBason(steps=50, patience=50)
+        h1, h2 = r1.continual, r2.continual
+        loss = 100.0
+        for i in range(steps1):
+            loss *= 0.5
+            o1.last, o1.loss = loss * 2, loss
+            s1.step(loss)
+            r1.step(loss)
+            _ = s2.continual()            # the other controllers are looked at in between
+            _ = r2.continual()
+        w = {"steps_of_first": steps1, "handles_taken_in_order": "first,second" if order else "second,first"}
+        ck.count("random.StopOnPlateau", "stored-handle", key=(rep, steps1, order))
+        ck.check(g1() is False and g2() is True, "random.StopOnPlateau", "stored-handle", "optim.scheduler.StopOnPlateau.continual",
+                 "stored_continual_handle_answers_for_another_scheduler", dict(w, first=g1(), second=g2()))
+        ck.check(h1() is False and h2() is True, "random.ReduceToBason", "stored-handle", "utils.ReduceToBason.continual",
+                 "stored_continual_handle_answers_for_another_controller", dict(w, first=h1(), second=h2()))
+        ck.mark("stored-handles")
+
+
 def drive_defaults(ck, rng):
     """Driver objects built WITHOUT a stepper argument use the documented default controller - ReduceToBason(steps=10) for MPC (of
     which MPC runs steps-1 controller steps: 'n-1 loops, 1 loop with gradient'), ReduceToBason(steps=200) for ICP - and every such
@@ -1139,6 +1168,8 @@ def _run(ck):
     drive_icp(ck, ck.rng("drive-icp"), nd)
     if ck.shard == 0:
         drive_defaults(ck, ck.rng("drive-defaults"))
+        stored_handles(ck, ck.rng("handles"))
+    ck.require("stored-handles")
     ck.require("driver.defaults/MPC", "driver.defaults/ICP", "random.StopOnPlateau/restored-from-state_dict/while-running")
 
     # ---- 1+2: prefix trees (work items = controller x configuration, split over the shards)
